@@ -333,6 +333,18 @@ func c07Streams(c *core.Ctx) {
 					core.Fill(pl, vals)
 					eb, _ := l.Encode(vals)
 					c2, b2 = &lorawan.MACCommand{CID: lorawan.CID(cid), Payload: pl}, append([]byte{cid}, eb...)
+				} else if sz > 0 {
+					// a standard-range command the library registers and the table does not describe: sz opaque
+					// bytes, compared by framing only (what the library makes of them is its own)
+					pb := r.Bytes(sz)
+					if pl, _, e := lorawan.GetMACPayloadAndSize(up, lorawan.CID(cid)); e == nil && pl != nil && pl.UnmarshalBinary(pb) == nil {
+						if nb, e2 := pl.MarshalBinary(); e2 == nil && len(nb) == sz {
+							pb = nb
+						}
+						c2, b2 = &lorawan.MACCommand{CID: lorawan.CID(cid), Payload: pl}, append([]byte{cid}, pb...)
+					} else {
+						continue
+					}
 				} else {
 					c2, b2 = &lorawan.MACCommand{CID: lorawan.CID(cid)}, []byte{cid}
 				}
@@ -441,8 +453,11 @@ func c07Streams(c *core.Ctx) {
 					"MarshalText":        func() error { _, e := phy.MarshalText(); return e },
 					"SetUplinkDataMIC":   func() error { return phy.SetUplinkDataMIC(lorawan.LoRaWAN1_0, 0, 0, 0, k, k) },
 					"SetDownlinkDataMIC": func() error { return phy.SetDownlinkDataMIC(lorawan.LoRaWAN1_1, 0, k) },
-					"ValidateUplinkDataMIC": func() error {
-						_, e := phy.ValidateUplinkDataMIC(lorawan.LoRaWAN1_1, 0, 0, 0, k, k)
+					"ValidateUplinkDataMIC": func() error { // "false" is as much a refusal as an error is
+						okv, e := phy.ValidateUplinkDataMIC(lorawan.LoRaWAN1_1, 0, 0, 0, k, k)
+						if e == nil && !okv {
+							return fmt.Errorf("not valid")
+						}
 						return e
 					},
 					"EncryptFOpts": func() error { return phy.EncryptFOpts(k) },
